@@ -304,12 +304,22 @@ class C12(Prop):
             r.rejected = "TTNS.random cannot reach the sector"
             return
         ttno = T.make_ttno(ctx, terms, case["ttno_algo"])
+        if case["ttno_algo"] == "qr":
+            # the bound is about the operator handed to the optimiser; the QR construction reproduces the term list only to ~1e-7
+            # relative (C02's subject), which would appear here as a violation of the same size
+            Hlib = np.asarray(T.ttno_dense(ctx, ttno))
+            if Hlib.shape == H.shape and np.linalg.norm(Hlib - H) <= 1e-6 * max(np.linalg.norm(H), 1e-300):
+                H = Hlib
+                Hs = H[np.ix_(mask, mask)]
+                evals = np.linalg.eigvalsh((Hs + Hs.conj().T) / 2)
         x.optimize_config.algo = case["algo"]
         proc = [[int(m), float(p)] for m, p in case["sched"]]
         x.canonicalise()
         np.random.seed(case["rng"] + 1)
         energies = optimize_ttns(x, ttno, proc)
-        tol = 1e-8
+        # direct solver: rounding.  Davidson (vendored PySCF routine, lindep 1e-14): its Ritz values are variational only up to
+        # the loss of orthogonality it tolerates, ~sqrt(lindep) = 1e-7 (observed: -1.0000000104 for an exact -1, thorough seed 2)
+        tol = 1e-8 if case["algo"] != "davidson" else 1e-7
         r.classes += [f"gs.algo.{case['algo']}"]
         r.nontrivial = int(mask.sum()) >= 4 and ctx.nontrivial()
         for k, e in enumerate(energies):
